@@ -168,6 +168,9 @@ def b_len(ex, e, st):
 
 def b_int(ex, e, st):
     v = ex.ev(e.args[0], st)
+    from pyvc.sym import MaybeFloat
+    if isinstance(v, MaybeFloat):
+        return v.value
     if isinstance(v, Seq) and v.elem == "char":
         ex.may_raise(st, "ValueError", z3.Not(z3.And(v.n >= 1, specz3.seq_digits(v))), f"int-of-str:{ex.ordinal('int')}", e.lineno)
         if lit(v.n) == 1:
